@@ -44,18 +44,21 @@ Inductive auth_result (keep : bool) (s : srv) (c : cc) (a : N) (m : hs) : srv ->
 | AR_expired : forall cl, black s a = false -> banned s a = false -> clients s (h_cid m) = Some cl -> expired cl = true ->
     auth_result keep s c a m s c AFail
 | AR_phase1 : forall cl, black s a = false -> banned s a = false -> clients s (h_cid m) = Some cl -> expired cl = false ->
-    h_resp m = None ->
+    h_resp m = None -> stored cl <> CEmpty ->
     auth_result keep s c a m (bump_nonce s) {| authed := authed c; ccid := ccid c; pending := Some (next_nonce s) |}
       (AChallenge (next_nonce s))
 | AR_nochal : forall cl r, black s a = false -> banned s a = false -> clients s (h_cid m) = Some cl -> expired cl = false ->
     h_resp m = Some r -> pending c = None ->
     auth_result keep s c a m (record_failure s a) c AFail
-| AR_ok : forall cl ch, black s a = false -> banned s a = false -> clients s (h_cid m) = Some cl -> expired cl = false ->
-    h_resp m = Some (hmac (secret cl) ch) -> pending c = Some ch ->
+| AR_ok : forall cl sec ch, black s a = false -> banned s a = false -> clients s (h_cid m) = Some cl -> expired cl = false ->
+    stored cl = CKey sec -> h_resp m = Some (hmac sec ch) -> pending c = Some ch ->
     auth_result keep s c a m (clear_fails s a) {| authed := true; ccid := h_cid m; pending := None |} ASuccess
 | AR_bad : forall cl ch r, black s a = false -> banned s a = false -> clients s (h_cid m) = Some cl -> expired cl = false ->
-    h_resp m = Some r -> pending c = Some ch -> r <> hmac (secret cl) ch ->
-    auth_result keep s c a m (record_failure s a) {| authed := authed c; ccid := ccid c; pending := None |} AFail.
+    h_resp m = Some r -> pending c = Some ch -> (forall sec, stored cl = CKey sec -> r <> hmac sec ch) ->
+    auth_result keep s c a m (record_failure s a) {| authed := authed c; ccid := ccid c; pending := None |} AFail
+| AR_noconf : forall cl, black s a = false -> banned s a = false -> clients s (h_cid m) = Some cl -> expired cl = false ->
+    h_resp m = None -> stored cl = CEmpty ->
+    auth_result keep s c a m s c AFail.
 
 Lemma auth_cases keep s c a m : let '(s1, c1, ar) := auth keep s c a m in auth_result keep s c a m s1 c1 ar.
 Proof.
@@ -68,14 +71,24 @@ Proof.
     destruct (h_new m) eqn:Hnew; [apply AR_new; auto|].
     destruct (clients s (h_cid m)) as [cl|] eqn:Hc; [|apply AR_unknown; auto].
     destruct (expired cl) eqn:He; [eapply AR_expired; eauto|].
-    destruct (h_resp m) as [r|] eqn:Hr'; [|eapply AR_phase1; eauto].
+    destruct (h_resp m) as [r|] eqn:Hr'.
+    2:{ destruct (stored cl) eqn:Hst; [eapply AR_phase1; eauto; congruence|eapply AR_noconf; eauto|eapply AR_phase1; eauto; congruence]. }
     destruct (pending c) as [ch|] eqn:Hp; [|eapply AR_nochal; eauto].
-    destruct (N.eqb_spec r (hmac (secret cl) ch)) as [->|Hne]; [eapply AR_ok; eauto|eapply AR_bad; eauto].
+    destruct (stored cl) as [sec| |] eqn:Hst; cbn [secret_of].
+    + destruct (N.eqb_spec r (hmac sec ch)) as [->|Hne]; [eapply AR_ok; eauto|eapply AR_bad; eauto].
+      intros sec' E. rewrite Hst in E. injection E as <-. exact Hne.
+    + eapply AR_bad; eauto. intros sec' E. rewrite Hst in E. discriminate.
+    + eapply AR_bad; eauto. intros sec' E. rewrite Hst in E. discriminate.
   - destruct (clients s (h_cid m)) as [cl|] eqn:Hc; [|apply AR_unknown; auto].
     destruct (expired cl) eqn:He; [eapply AR_expired; eauto|].
-    destruct (h_resp m) as [r|] eqn:Hr'; [|eapply AR_phase1; eauto].
+    destruct (h_resp m) as [r|] eqn:Hr'.
+    2:{ destruct (stored cl) eqn:Hst; [eapply AR_phase1; eauto; congruence|eapply AR_noconf; eauto|eapply AR_phase1; eauto; congruence]. }
     destruct (pending c) as [ch|] eqn:Hp; [|eapply AR_nochal; eauto].
-    destruct (N.eqb_spec r (hmac (secret cl) ch)) as [->|Hne]; [eapply AR_ok; eauto|eapply AR_bad; eauto].
+    destruct (stored cl) as [sec| |] eqn:Hst; cbn [secret_of].
+    + destruct (N.eqb_spec r (hmac sec ch)) as [->|Hne]; [eapply AR_ok; eauto|eapply AR_bad; eauto].
+      intros sec' E. rewrite Hst in E. injection E as <-. exact Hne.
+    + eapply AR_bad; eauto. intros sec' E. rewrite Hst in E. discriminate.
+    + eapply AR_bad; eauto. intros sec' E. rewrite Hst in E. discriminate.
 Qed.
 
 Lemma auth_result_frame keep s c a m s1 c1 ar : auth_result keep s c a m s1 c1 ar ->
@@ -370,6 +383,10 @@ Proof.
   - (* ERegister *) split.
     + intros y Hy. cbn in *. rewrite upd_other by lia. apply Hf. lia.
     + eapply idx_inv_ext; [| |exact Hinv]; reflexivity.
+  - (* ECorrupt *) destruct (clients s x) as [cl|] eqn:Hc; [|exact (conj Hf Hinv)]. split.
+    + intros y Hy. cbn in *. unfold upd. destruct (N.eqb_spec y x) as [->|_]; [|apply Hf; exact Hy].
+      rewrite (Hf _ Hy) in Hc. discriminate.
+    + eapply idx_inv_ext; [| |exact Hinv]; reflexivity.
   - split; [exact Hf|]. eapply idx_inv_ext; [| |exact Hinv]; reflexivity.
   - (* EClose *) split.
     + intros y Hy. unfold close in *. cbn [clients next_id set_conns] in *.
@@ -408,8 +425,8 @@ Proof. intro H. destruct (run_wf v es init init_wf) as [_ Hinv]. apply (Hinv _ _
 Definition proof_step (s : srv) (k : N) (m : hs) (x : N) : Prop :=
   exists cn, conns s k = Some cn /\ black s (c_addr cn) = false /\ banned s (c_addr cn) = false /\
   ( (h_cid m = 0 /\ h_new m = true /\ rl_deny s = false /\ x = next_id s /\ clients s x = None)
-    \/ (h_cid m = x /\ exists cl ch, clients s x = Some cl /\ expired cl = false /\
-        pending_of s k = Some ch /\ h_resp m = Some (hmac (secret cl) ch)) ).
+    \/ (h_cid m = x /\ exists cl sec ch, clients s x = Some cl /\ expired cl = false /\ stored cl = CKey sec /\
+        pending_of s k = Some ch /\ h_resp m = Some (hmac sec ch)) ).
 
 Lemma handle_authed_justified v s k0 m k x :
   wf s -> authed_as (fst (handle v s k0 m)) k x ->
@@ -434,7 +451,7 @@ Proof.
       * split; [assumption|]. split; [assumption|]. left. cbn in Hid. subst x.
         repeat split; try assumption. apply Hf. lia.
       * split; [assumption|]. split; [assumption|]. right. cbn in Hid. split; [exact Hid|]. subst x.
-        exists cl, ch. split; [assumption|]. split; [assumption|]. split; [|assumption].
+        exists cl, sec, ch. split; [assumption|]. split; [assumption|]. split; [assumption|]. split; [|assumption].
         unfold pending_of. rewrite Hc. unfold c0 in *. destruct (c_cc cn) as [c|]; [assumption|discriminate].
     + left. destruct (auth_result_nonsuccess _ _ _ _ _ _ _ _ Har Hs) as (E1 & E2 & _).
       rewrite E1 in Hau1. rewrite E2 in Hid. unfold c0 in *.
@@ -462,6 +479,7 @@ Proof.
   - (* EExpire *) left. destruct (clients s x0); exact Ha.
   - (* EDelAnon *) left. destruct (v_anon_delete v); exact Ha.
   - (* ERekey *) left. unfold rekey in Ha. destruct (clients s x0); exact Ha.
+  - (* ECorrupt *) left. destruct (clients s x0); exact Ha.
   - left. apply close_authed in Ha. exact Ha.
   - left. destruct Ha as (cn & c & H1 & H). cbn [conns set_conns] in H1.
     destruct (N.eq_dec k k0) as [->|Hn].
@@ -490,8 +508,20 @@ Corollary unknown_or_expired_never_authenticated v s e k x :
   authed_as (fst (step v s e)) k x -> authed_as s k x.
 Proof.
   intros Hw Hx Hlt Ha. destruct (auth_step_justified v s e k x Hw Ha) as [H|(m & _ & cn & _ & _ & _ & Hp)]; [exact H|].
-  exfalso. destruct Hp as [(_ & _ & _ & -> & _)|(_ & cl & ch & Hc & He & _)]; [lia|].
+  exfalso. destruct Hp as [(_ & _ & _ & -> & _)|(_ & cl & sec & ch & Hc & He & _)]; [lia|].
   destruct Hx as [Hx|(cl' & Hx & He')]; rewrite Hc in Hx; [discriminate|]. injection Hx as <-. congruence.
+Qed.
+
+(* a client whose stored credential yields no usable secret (empty, not base64, undecryptable, sealed under another
+   master key) is never newly authenticated, whatever the response is *)
+Corollary no_usable_secret_never_authenticated v s e k x cl :
+  wf s -> clients s x = Some cl -> secret_of (stored cl) = None ->
+  authed_as (fst (step v s e)) k x -> authed_as s k x.
+Proof.
+  intros Hw Hc Hn Ha. destruct (auth_step_justified v s e k x Hw Ha) as [H|(m & _ & cn & _ & _ & _ & Hp)]; [exact H|].
+  exfalso. destruct Hp as [(_ & _ & _ & _ & Hnone)|(_ & cl' & sec & ch & Hc' & _ & Hst & _)].
+  - rewrite Hc in Hnone. discriminate.
+  - rewrite Hc in Hc'. injection Hc' as <-. rewrite Hst in Hn. discriminate.
 Qed.
 
 (* ------------------------------------------------------------------------------------------ *)
@@ -637,7 +667,7 @@ Proof.
   split.
   { unfold proof_step. eexists. split; [vm_compute; reflexivity|].
     split; [vm_compute; reflexivity|]. split; [vm_compute; reflexivity|]. right.
-    split; [reflexivity|]. eexists. eexists. split; [vm_compute; reflexivity|].
-    split; [vm_compute; reflexivity|]. split; vm_compute; reflexivity. }
+    split; [reflexivity|]. eexists. eexists. eexists. split; [vm_compute; reflexivity|].
+    split; [vm_compute; reflexivity|]. split; [vm_compute; reflexivity|]. split; vm_compute; reflexivity. }
   vm_compute. reflexivity.
 Qed.
